@@ -1,6 +1,6 @@
 """Rules centred on the solve root of PEP: R-DRAIN, R-PAIR, R-OBJ, R-OBJSENSE, R-ORDER, R-RET."""
 import ast
-from ..model import (AnalysisError, src, loc, call_name, dotted, qualname, norm_stmt, params_of, is_const, get_arg)
+from ..model import (AnalysisError, src, loc, call_name, dotted, qualname, norm_stmt, params_of, is_const, get_arg, iter_base)
 from .. import flow, effects
 from . import common
 
@@ -83,10 +83,8 @@ def send_sites(repo, root):
             s.loop = flow.in_loop(s.stmt)
             s.attr = s.owner = s.elem = None
             if s.loop is not None and isinstance(s.loop, ast.For):
-                it = s.loop.iter
-                whole = it
-                if isinstance(it, ast.Call) and call_name(it) == "enumerate" and len(it.args) == 1:
-                    whole = it.args[0]
+                whole, enum = iter_base(s.loop.iter)
+                if enum:
                     tgt = s.loop.target.elts[1] if isinstance(s.loop.target, ast.Tuple) and len(s.loop.target.elts) == 2 else None
                 else:
                     tgt = s.loop.target
@@ -107,8 +105,10 @@ def _owner_class_of(repo, root, owner_expr):
     if isinstance(owner_expr, ast.Name):
         # find the enclosing loop binding this name
         for lp in flow.stmts_of(root, ast.For):
-            if isinstance(lp.target, ast.Name) and lp.target.id == owner_expr.id and any(n is owner_expr for n in ast.walk(lp)):
-                src_list = lp.iter
+            base_it, enum = iter_base(lp.iter)
+            tgt = lp.target.elts[1] if enum and isinstance(lp.target, ast.Tuple) and len(lp.target.elts) == 2 else lp.target
+            if isinstance(tgt, ast.Name) and tgt.id == owner_expr.id and any(n is owner_expr for n in ast.walk(lp)):
+                src_list = base_it
                 origin = _list_origin(root, src_list)
                 if origin is None:
                     return None, lp
@@ -269,9 +269,7 @@ def r_drain(ctx):
 
 
 def _whole(s):
-    it = s.loop.iter
-    if isinstance(it, ast.Call) and call_name(it) == "enumerate" and len(it.args) == 1:
-        it = it.args[0]
+    it, _ = iter_base(s.loop.iter)
     return isinstance(it, ast.Attribute)
 
 
